@@ -50,3 +50,31 @@ Proof. exact select_root_move_legal. Qed.
 Theorem C09_select_root_move_accepted : forall cutoff n choice m,
   Good cutoff n -> select_root_move n choice = Some m -> move (n_pos n) m <> None.
 Proof. exact select_root_move_accepted. Qed.
+
+(* ---- compositions (work package X; proofs/ComposeMcts.v) ---- *)
+From TV Require model.Solver proofs.SolverProofs proofs.ComposeMcts.
+(* C09 + C10: at every expanded node (Good, Bounded, live) the solver inputs meet C10's hypothesis Hyp for every rational multiplier in (0,1024], hence the Python-rule solver in exact arithmetic never runs out of iterations and returns positive weights lam*pi_i/(alpha-q_i), one per child, for one alpha above every q, summing to 1 within C10's tolerance.  Missing (partial): float rounding (C10), and the multiplier's relation to C*sqrt(N)/(N+K), which the correspondence checks through lambda^2 (C09_multiplier_in_range_partial) *)
+Theorem C09_policy_meets_solver_contract_partial : forall cutoff n ks C lam,
+  0 < cutoff -> Good cutoff n -> Bounded n -> n_kids n = Some ks ->
+  live cutoff (n_pos n) (n_raw n) = true ->
+  0 < lam /\ lam <= 1024 ->
+  exists i, policy_inputs n C = Some i /\
+    pi_prior i = n_probs n /\ pi_q i = map (q_of (n_v0 n)) ks /\ (1 <= pi_N i)%nat /\
+    SolverProofs.Hyp lam (pi_prior i) (pi_q i) /\
+    Solver.solve_python_Q lam (pi_prior i) (pi_q i) <> Solver.OutOfIters /\
+    exists k a w,
+      Solver.solve_python_Q lam (pi_prior i) (pi_q i) = Solver.Returned k a w /\ (1 <= k <= 32)%nat /\
+      SolverProofs.above (pi_q i) a /\
+      w = map (fun pq => lam * fst pq / (a - snd pq)) (combine (pi_prior i) (pi_q i)) /\
+      Forall (fun x => 0 < x) w /\ length w = length ks /\
+      (Qabs.Qabs (1 - SolverProofs.Qsum w) <= Solver.EPS_Q \/
+       ((forall x, SolverProofs.above (pi_q i) x -> x < a - Solver.TOL_Q ->
+                   1 < SolverProofs.f lam (pi_prior i) (pi_q i) x) /\
+        (forall x, a + Solver.TOL_Q < x -> SolverProofs.f lam (pi_prior i) (pi_q i) x < 1))).
+Proof. exact ComposeMcts.policy_meets_solver_contract. Qed.
+(* a positive multiplier whose square is within the correspondence's tolerance (1e-12 relative) of the model's lambda^2 = C^2 N/(N+K)^2 lies in C10's range (0,1024] for every C <= 1000 (Config.C = 4) *)
+Theorem C09_multiplier_in_range_partial : forall C N K lam,
+  0 < C -> C <= 1000 -> 0 < lam ->
+  lam * lam <= (1 + (1 # 1000000000000)) * lambda_sq C (S N) K ->
+  0 < lam /\ lam <= 1024.
+Proof. exact ComposeMcts.multiplier_in_range. Qed.
